@@ -17,7 +17,7 @@ ASSUMPTIONS = ["ownership of a kind = the package that defines its entity class 
                "iq results/errors are exercised through C08's request/reply path; encryption-specific stanzas through C03",
                "with the encryption layers present outgoing messages are judged at the probe below the protocol group"]
 REQUIRED = ["outgoing_cases", "incoming_cases", "expected_one_observed_one", "expected_zero_observed_zero", "selections", "kinds_outgoing", "kinds_incoming",
-            "with_enc", "without_enc", "send_handlers_seen", "direction_switches", "reply_inside_send_cases", "reply_cases", "reply_one_entity", "reply_with_others_outstanding", "reply:error", "reply:result"]
+            "encrypted_incoming", "encrypted_incoming_ok", "encrypted_incoming:first-message", "encrypted_incoming:later-message", "encrypted_incoming:group-with-distribution", "encrypted_incoming:group-sender-key-only", "encrypted_incoming:group-pairwise-only", "with_enc", "without_enc", "send_handlers_seen", "direction_switches", "reply_inside_send_cases", "reply_cases", "reply_one_entity", "reply_with_others_outstanding", "reply:error", "reply:result"]
 TIMEOUT = {"quick": 600, "thorough": 7200}
 
 INCOMING_FIXTURES = ["message_text", "message_media_contact", "message_media_downloadable_audio", "message_media_downloadable_image",
@@ -370,9 +370,117 @@ def run(spec, acc):
                 acc.case(["i", name, sname, enc, k], nontrivial=True)
                 check_incoming(acc, kit, name, cls, tree, sel, enc, w)
         reply_rounds(acc, kit, sel, enc, sname, seed, spec["draws"] * 4)
+        if enc:
+            encrypted_incoming(acc, kit, sel, sname, seed)
     acc.counters["kinds_incoming"] = len(inc)
     acc.counters["kinds_outgoing"] = len(out)
     acc.sample({"selections": [stackkit.sel_name(sels[i]) for i, _ in spec["cells"]][:4], "incoming_kinds": [n for n, _, _ in inc][:8], "outgoing_kinds": sorted(out)[:8]})
+
+
+def encrypted_incoming(acc, kit, sel, sname, seed):
+    """With the encryption layers: really encrypted message stanzas from a peer with its own key store (first message, later
+    message, group message with sender-key distribution, group message with the sender key alone, and the pairwise-only group
+    stanza a sender uses to answer a retry) each produce exactly one entity at the application side, carrying the text."""
+    from yowsup.axolotl.factory import AxolotlManagerFactory
+    from yowsup.axolotl.manager import AxolotlManager
+    from axolotl.state.prekeybundle import PreKeyBundle
+    from axolotl.protocol.prekeywhispermessage import PreKeyWhisperMessage
+    from yowsup.layers.protocol_messages.proto.e2e_pb2 import Message
+    from yowsup.layers.protocol_messages.protocolentities import TextMessageProtocolEntity
+    r = gen.rng(seed, ID, "encin/%s" % sname)
+    own = str(kit.profile.config.phone)
+    m = kit.profile.axolotl_manager
+    pphone = "4917" + gen.s_from(r, gen.DIGITS, 8)
+    pj = "%s@s.whatsapp.net" % pphone
+    old = AxolotlManager.COUNT_GEN_PREKEYS
+    AxolotlManager.COUNT_GEN_PREKEYS = 3
+    try:
+        P = AxolotlManagerFactory().get_manager("c06peer_%s_%s" % (sname.replace("+", "_"), pphone), pphone)
+        P.level_prekeys()
+        pks = m.load_unsent_prekeys() or m.level_prekeys(force=True)
+    finally:
+        AxolotlManager.COUNT_GEN_PREKEYS = old
+    pk = pks[0]
+    spk = m.load_latest_signed_prekey(generate=True)
+    P.create_session(own, PreKeyBundle(m.registration_id, 1, pk.getId(), pk.getKeyPair().getPublicKey(), spk.getId(), spk.getKeyPair().getPublicKey(),
+                                       spk.getSignature(), m.identity.getPublicKey()), autotrust=True)
+    gj = gen.jid(r, True)
+    n = [0]
+
+    def pairwise(proto):
+        ct = P.encrypt(own, proto.SerializeToString())
+        return ("enc", {"v": "2", "type": "pkmsg" if isinstance(ct, PreKeyWhisperMessage) else "msg"}, [], ct.serialize())
+
+    def stanza(encs, group):
+        n[0] += 1
+        a = {"from": gj if group else pj, "id": "ENC%d%s" % (n[0], gen.s_from(r, gen.HEXU, 8)), "t": str(1600000000 + n[0]), "type": "text", "notify": "N"}
+        if group:
+            a["participant"] = pj
+        return ("message", a, encs, None)
+
+    def judge(shape, st, text):
+        w = {"dir": "in-encrypted", "shape": shape, "selection": sname, "stanza": treeeq.describe(st, 3)}
+        acc.count("encrypted_incoming")
+        acc.count("encrypted_incoming:" + shape)
+        acc.case(["ienc", shape, sname, n[0]], nontrivial=True)
+        kit.clear()
+        try:
+            kit.inject(st)
+        except Exception as e:  # noqa
+            acc.violation("incoming-encrypted-raises:%s:%s" % (shape, type(e).__name__), "an encrypted %s stanza raised %r" % (shape, e), w)
+            return False
+        got = [e for e in kit.top.received if getattr(e, "getTag", lambda: None)() == "message"]
+        if len(got) != 1:
+            acc.violation("incoming-encrypted-count:%s:%d" % (shape, min(len(got), 2)), "an encrypted %s stanza produced %d message entities at the top (expected one); sent down meanwhile: %s"
+                          % (shape, len(got), [(x.tag, x["type"]) for x in kit.bottom.sent][:4]), w)
+            return False
+        e = got[0]
+        body = getattr(e, "getBody", lambda: None)()
+        if body != text or e.getId() != st[1]["id"] or e.getFrom() != st[1]["from"] or e.getParticipant() != st[1].get("participant"):
+            acc.violation("incoming-encrypted-fields:%s" % shape, "the entity for an encrypted %s stanza carries body %r id %r from %r participant %r; stanza: %r %r %r %r"
+                          % (shape, body, e.getId(), e.getFrom(), e.getParticipant(), text, st[1]["id"], st[1]["from"], st[1].get("participant")), w)
+            return False
+        acc.count("encrypted_incoming_ok")
+        return True
+
+    def text():
+        return gen.unicode_text(r, 1, 30)
+    t = text()
+    if not judge("first-message", stanza([pairwise(Message(conversation=t))], False), t):
+        return
+    # the application answers: the peer's session becomes an established one (its next messages are of type msg)
+    kit.clear()
+    kit.send(TextMessageProtocolEntity("re", to=pj))
+    outs = [x for x in kit.bottom.sent if x.tag == "message"]
+    if outs:
+        encn = outs[0].getChild("enc")
+        try:
+            (P.decrypt_pkmsg if encn["type"] == "pkmsg" else P.decrypt_msg)(own, encn.getData(), True)
+        except Exception as e:  # noqa
+            acc.inconc("encin/%s: the peer cannot read the application's answer: %r" % (sname, e))
+            return
+    t = text()
+    if not judge("later-message", stanza([pairwise(Message(conversation=t))], False), t):
+        return
+    # group: sender key distribution next to the sender-key message, then the sender key alone
+    skdm = P.group_create_skmsg(gj).serialize()
+    t = text()
+    dist = Message()
+    dist.sender_key_distribution_message.group_id = gj
+    dist.sender_key_distribution_message.axolotl_sender_key_distribution_message = skdm
+    sk = ("enc", {"v": "2", "type": "skmsg"}, [], P.group_encrypt(gj, Message(conversation=t).SerializeToString()))
+    if not judge("group-with-distribution", stanza([pairwise(dist), sk], True), t):
+        return
+    t = text()
+    if not judge("group-sender-key-only", stanza([("enc", {"v": "2", "type": "skmsg"}, [], P.group_encrypt(gj, Message(conversation=t).SerializeToString()))], True), t):
+        return
+    # what a sender transmits to one participant in answer to that participant's retry receipt: the text together with the
+    # sender key, pairwise encrypted, and nothing else
+    t = text()
+    both = Message(conversation=t)
+    both.sender_key_distribution_message.group_id = gj
+    both.sender_key_distribution_message.axolotl_sender_key_distribution_message = skdm
+    judge("group-pairwise-only", stanza([pairwise(both)], True), t)
 
 
 def replay(spec, acc):
